@@ -11,9 +11,17 @@ from harness.tstub import GW, Gateway, StubUDP
 from xknx import XKNX
 from xknx.cemi import CEMIFrame, CEMILData, CEMIMessageCode
 from xknx.dpt import DPTArray
-from xknx.exceptions import CommunicationError
+from xknx.exceptions import CommunicationError, RequestResponseError
+from xknx.io.request_response import DeviceConfiguration, Tunnelling
 from xknx.io.tunnel import UDPTunnel
-from xknx.knxip import DisconnectRequest, ErrorCode, TunnellingAck, TunnellingRequest
+from xknx.knxip import (
+    DeviceConfigurationAck,
+    DeviceConfigurationRequest,
+    DisconnectRequest,
+    ErrorCode,
+    TunnellingAck,
+    TunnellingRequest,
+)
 from xknx.telegram import GroupAddress, Telegram
 from xknx.telegram.apci import GroupValueWrite
 
@@ -22,7 +30,9 @@ RULE = ("a scripted gateway answers each TunnellingRequest of the real UDPTunnel
         "fault of {ack, lose, late(>1 s), twice, stale(previous counter), wrongch, error(status)}; all fault sequences up "
         "to length 3 (quick) / 5 (thorough) x 1..3 concurrent send_cemi callers x auto-reconnect on/off x start counters "
         "253/254/255/0 (preset) and real runs from connect() across the wrap; random longer scripts, mid-send server "
-        "disconnects; non-trivial = distinct scenario with at least one faulty answer")
+        "disconnects; plus bare request/acknowledgement exchanges of Tunnelling and DeviceConfiguration with matching, "
+        "stale, foreign-channel and error ACKs before/after the timeout (mode F); non-trivial = distinct scenario with at "
+        "least one faulty answer")
 TRUSTED = ["model XknxVerif.Model.TunnelSend is a hand-written monitor; tied by replaying the recorded traces",
            "harness/vloop.py virtual clock; harness/tstub.py in-memory datagram endpoint and scripted gateway"]
 CASE_TIMEOUT = 20.0
@@ -154,7 +164,39 @@ async def _run(loop, case):
     return f"{c_now} {seq0} " + ",".join(tr), final
 
 
+async def _run_rr(loop, case):
+    """One bare request/acknowledgement exchange of Tunnelling / DeviceConfiguration."""
+    tr = StubUDP()
+    await tr.connect()
+    ch, seq = case["ch"], case["seq"]
+    if case["cls"] == "Tunnelling":
+        rr = Tunnelling(tr, GW, TunnellingRequest(communication_channel_id=ch, sequence_counter=seq,
+                                                  raw_cemi=frame(1).to_knx()))
+        ack_cls = TunnellingAck
+    else:
+        rr = DeviceConfiguration(tr, GW, DeviceConfigurationRequest(
+            communication_channel_id=ch, sequence_counter=seq, raw_cemi=bytes((0xFC, 0, 0x0B, 1, 0x45, 0x10, 1))))
+        ack_cls = DeviceConfigurationAck
+    timeout = vloop.q(rr.timeout_in_seconds)
+    for a in [x for x in case["acks"].split(",") if x != "-"]:
+        c, s, st, t = (int(v) for v in a.split(":"))
+        loop.call_later(t / 1_000_000, tr.inject,
+                        ack_cls(communication_channel_id=c, sequence_counter=s, status_code=ErrorCode(st)))
+    try:
+        await rr.request()
+        out = "ok"
+    except RequestResponseError as e:
+        out = "timeout" if e.error_code is None else f"error:{e.error_code.value}"
+    sent = len(tr.sent_raw)
+    await asyncio.sleep(2 * rr.timeout_in_seconds)   # later ACKs find nobody waiting
+    extra = "" if (sent == 1 and not tr.callbacks) else f" sent={sent} callbacks={len(tr.callbacks)}"
+    return out + extra, timeout
+
+
 def run_impl(case):
+    if case.get("mode") == "rr":
+        out, timeout = vloop.run(_run_rr, case)
+        return {"out": out, "line": f"tsend rr {case['ch']} {case['seq']} {timeout} {case['acks']}"}
     s, final = vloop.run(_run, case)
     return {"out": s + f" seq={final}", "line": f"tsend monitor {s}", "expect": "accept"}
 
@@ -175,7 +217,24 @@ def parse(out):
     return int(c0), int(s0), obs, int(fin[4:])
 
 
+def oracle_rr(case, out):
+    acks = [tuple(int(v) for v in a.split(":")) for a in case["acks"].split(",") if a != "-"]
+    timeout = vloop.q(1.0 if case["cls"] == "Tunnelling" else 10.0)  # only used to word the message
+    match = [a for a in acks if a[0] == case["ch"] and a[1] == case["seq"]]
+    if " " in out:
+        return f"exchange left state behind: {out}"
+    if out == "ok" and not any(a[2] == 0 for a in match):
+        return (f"{case['cls']} request {case['ch']}:{case['seq']} was confirmed although no acknowledgement with that "
+                f"channel, that counter and no error arrived (ACKs: {case['acks']})")
+    if out.startswith("error:") and not any(a[2] == int(out[6:]) for a in match):
+        return (f"{case['cls']} request {case['ch']}:{case['seq']} failed with status {out[6:]} taken from an "
+                f"acknowledgement of another request (ACKs: {case['acks']}; timeout {timeout}us)")
+    return None
+
+
 def oracle(case, out):
+    if case.get("mode") == "rr":
+        return oracle_rr(case, out)
     chan, counter, obs, final = parse(out)
     tx = {}            # id -> [(ch, seq)] transmissions on the current connection
     open_req = None    # id whose request awaits its acknowledgement / result
@@ -234,6 +293,8 @@ def oracle(case, out):
 
 
 def nontrivial(case, out):
+    if case.get("mode") == "rr":
+        return case["acks"] != "-"
     return any(f and f != "ack" for f in case["script"].split(","))
 
 
@@ -242,11 +303,16 @@ def finding_key(case, msg):
 
 
 def outcome_class(out):
+    if out.count(" ") < 3:
+        return "rr:" + out.split(":")[0]
     body = out.split(" ")[2]
     return f"ok{body.count(':1@')}/err{body.count(':0@')}/conn{body.count('N')}"
 
 
 def shrink(case, msg):
+    if case.get("mode") == "rr":
+        return case
+
     def fails(c):
         try:
             return oracle(c, run_impl(c)["out"]) is not None
@@ -297,6 +363,27 @@ def generate(rng, tier):
             if length <= 2:
                 for auto in (0, 1):
                     yield {"script": ",".join(sc), "callers": 1, "auto": auto, "seq0": 254, "frames": length + 2}
+    # bare request/acknowledgement exchanges of both RequestResponse classes
+    sts = [0, 0, 0x21, 0x29, 0x04]
+    for j in range(3000 if thorough else 500):
+        cls = ("Tunnelling", "DeviceConfiguration")[j % 2]
+        to = 1_000_000 if cls == "Tunnelling" else 10_000_000
+        ch, seq = rng.choice([0, 1, 7, 255]), rng.choice([0, 1, 127, 254, 255])
+        times = sorted(rng.sample([10, 20_000, 500_000, to - 1000, to + 1000, to + 500_000, 2 * to - 7, 30, 40_000], rng.choice([0, 1, 2, 3, 4])))
+        acks = []
+        for t in times:
+            r = rng.random()
+            c, s = ch, seq
+            if r < 0.25:
+                s = (seq - 1) % 256
+            elif r < 0.4:
+                s = (seq + 1) % 256
+            elif r < 0.55:
+                c = (ch + 1) % 256
+            elif r < 0.6:
+                c, s = rng.randrange(256), rng.randrange(256)
+            acks.append(f"{c}:{s}:{rng.choice(sts)}:{t}")
+        yield {"mode": "rr", "cls": cls, "ch": ch, "seq": seq, "acks": ",".join(acks) or "-"}
     # real runs from connect(): > 255 acknowledged frames first, then the faults across the wrap
     for sc in itertools.product(FAULTS, repeat=2):
         if thorough or rng.random() < 0.25:
